@@ -794,6 +794,14 @@ func (f *fileStore) open() error {
 	if err := binary.Read(f.file, binary.LittleEndian, &f._nextLSN); err != nil {
 		return err
 	}
+	// a crash between the page writes and the header write of a flush leaves
+	// pages in the file that the saved allocation frontier does not cover.
+	// never hand out their offsets again.
+	if fi, err := f.file.Stat(); err != nil {
+		return err
+	} else if uint64(fi.Size()) > f.nextFreeOffset {
+		f.nextFreeOffset = (uint64(fi.Size()) + pageSize - 1) / pageSize * pageSize
+	}
 	return nil
 }
 
